@@ -28,6 +28,10 @@ Maps == [ any3 |-> VM(<<K(kA), K(kB), K(kC)>>, <<VI(1), VI(2), VI(3)>>),
           \* the empty string is a key like any other; 64-bit keys beyond 2^53 that are close together
           emptykey |-> VM(<<K(<<>>), K(kA), K(kB)>>, <<VI(0), VI(1), VI(2)>>),
           big64 |-> VMg(<<VI(0), VI(1), VI(7)>>, <<VS(<<120>>), VS(<<121>>), VS(<<122>>)>>, "mi64big"),
+          \* interface-keyed maps whose keys print alike (1 and "1"; 10, 9 and "9"; 1, 1.0 and int64(1))
+          ikeys2 |-> VMg(<<VI(1), VS(<<49>>)>>, <<VS(<<120>>), VS(<<121>>)>>, "mii"),
+          ikeys3 |-> VMg(<<VI(10), VI(9), VS(<<57>>)>>, <<VS(<<120>>), VS(<<121>>), VS(<<122>>)>>, "mii"),
+          ikeys1 |-> VMg(<<VI(1), VD(1, 0), VN(VI(1), "i64")>>, <<VS(<<120>>), VS(<<121>>), VS(<<122>>)>>, "mii"),
           nest |-> VM(<<K(<<112>>), K(<<113>>)>>, <<VM(<<K(kA), K(kB)>>, <<VI(1), VI(2)>>), VM(<<K(kC), K(kD)>>, <<VI(3), VI(4)>>)>>) ]
 
 Perms(n) == {p \in [1..n -> 1..n] : \A i, j \in 1..n : i # j => p[i] # p[j]}
@@ -53,18 +57,25 @@ Programs ==
     loopidx  |-> <<For("v", "k", M, <<If1(Attr(Var("loop"), "first"), <<PrintS(Var("k"))>>), If1(Attr(Var("loop"), "last"), <<PrintS(Var("k"))>>)>>, <<>>, FALSE)>>,
     length   |-> <<PrintS(Filt("length", M, <<>>))>>,
     lookup   |-> <<PrintS(Attr(M, "a")), PrintS(Item(M, LS(kB)))>>,
+    \* hash literals with a repeated key, with keys that collide as text, with bare names as keys
+    duplit   |-> <<PrintS(Item(Hash(<<LS(kA), LS(kA)>>, <<LI(1), LI(2)>>), LS(kA))), Set("h", Hash(<<LS(kA), LS(kB), LS(kA)>>, <<LI(1), LI(2), LI(3)>>)), PrintS(Attr(Var("h"), "a")),
+                   PrintS(Filt("first", Hash(<<LI(1), LS(<<49>>)>>, <<LS(<<120>>), LS(<<121>>)>>), <<>>)), PrintS(Filt("length", Var("h"), <<>>))>>,
+    mergecollide |-> <<PrintS(Filt("join", Filt("merge", M, <<Hash(<<>>, <<>>)>>), <<LS(<<44>>)>>)), For("v", "k", Filt("merge", Hash(<<LS(<<122>>)>>, <<LI(0)>>), <<M>>), KV, <<>>, FALSE)>>,
     nested   |-> <<For("inner", "k", M, <<PrintS(Var("k")), T(<<58>>), For("v", "j", Var("inner"), <<PrintS(Var("j")), PrintS(Var("v"))>>, <<>>, FALSE), T(<<59>>)>>, <<>>, FALSE)>> ]
 Applicable(pn, mn) ==
     /\ (pn = "nested" <=> mn = "nest")
     /\ (pn \in {"forlit", "forlitv", "setlit"} => mn = "any3")
     /\ (pn = "lookup" => mn \in {"any3", "msi3"})
     /\ (pn = "merged" => mn \in {"any3", "any4"})
+    /\ (pn = "duplit" => mn = "any3")
+    /\ (pn = "mergecollide" => mn \in {"ikeys2", "ikeys3", "ikeys1"})
+    /\ (mn \in {"ikeys2", "ikeys3", "ikeys1"} => pn \in {"forkv", "forv", "first", "last", "mergecollide", "length"})
 
 MapCases == {[fam |-> "map", p |-> pn, m |-> mn] : pn \in DOMAIN Programs, mn \in DOMAIN Maps}
 Ref(c, perm) == Render(MkW(("main" :> Programs[c.p]), {}, {}, NoFault), "main", ("m" :> PermMap(Maps[c.m], perm)))
 Sensitive(c) == Cardinality({Ref(c, perm).out : perm \in Perms(Len(Maps[c.m].ks))}) > 1
 \* hash literals in the template are sensitive by construction (their order is the implementation's)
-LitSensitive(c) == c.p \in {"forlit", "forlitv", "setlit"}
+LitSensitive(c) == c.p \in {"forlit", "forlitv", "setlit", "duplit", "mergecollide"} \/ c.m \in {"ikeys2", "ikeys3", "ikeys1"}
 
 \* ---- date formats ----------------------------------------------------------------------------------
 FmtAlphabet == {100, 68, 106, 108, 70, 109, 77, 110, 89, 121, 97, 65, 103, 71, 104, 72, 105, 115, 45, 58, 32, 44, 47}
@@ -89,13 +100,18 @@ IncWithTp(c) == ("main" :> <<Include(LS(NT.t1), IncWithHash(c.n), TRUE, c.only, 
 IncWithCtx == ("t" :> VS(sHome)) @@ ("h" :> VS(<<111>>)) @@ ("u" :> VS(<<117>>))
 
 \* ---- values that carry memory addresses ----------------------------------------------------------------
-AddrCases == {[fam |-> "addr", kind |-> k, prog |-> pr] : k \in {"ptrstruct", "ptrptr", "func", "chan", "privptr"},
-                 pr \in {"print", "concat", "join", "default", "length"}}
+AddrCases == {[fam |-> "addr", kind |-> k, prog |-> pr] : k \in {"ptrstruct", "ptrptr", "func", "chan", "privptr", "ptrlist"},
+                 pr \in {"print", "concat", "join", "default", "length", "dump", "format", "spaceless", "jsonish"}}
 AddrProg(pr) == CASE pr = "print"   -> <<PrintS(Var("v"))>>
                   [] pr = "concat"  -> <<PrintS(Bin("~", LS(<<120>>), Var("v")))>>
                   [] pr = "join"    -> <<PrintS(Filt("join", Arr(<<Var("v"), LI(1)>>), <<LS(<<44>>)>>))>>
                   [] pr = "default" -> <<PrintS(Filt("default", Var("v"), <<LS(<<100>>)>>))>>
                   [] pr = "length"  -> <<If1(Var("v"), <<T(<<116>>)>>)>>
+                  \* the debugging and formatting helpers print values too
+                  [] pr = "dump"    -> <<PrintS(Call("dump", <<Var("v")>>))>>
+                  [] pr = "format"  -> <<PrintS(Filt("format", LS(<<37, 118, 124, 37, 115>>), <<Var("v"), Var("v")>>))>>
+                  [] pr = "spaceless" -> <<PrintS(Filt("spaceless", Var("v"), <<>>))>>
+                  [] pr = "jsonish" -> <<PrintS(Filt("upper", Bin("~", Var("v"), LS(<<33>>)), <<>>))>>
 
 Runs(tp) == <<[label |-> "repeat", tp |-> tp, xcalls |-> [id \in {} |-> 0], repeat |-> 24],
               [label |-> "reversed-insertion", tp |-> tp, xcalls |-> [id \in {} |-> 0], repeat |-> 8, rev |-> TRUE]>>
